@@ -326,6 +326,7 @@ func (r *Receiver) getDownloader(ctx context.Context, instance string) *Download
 		// would receive a Downloader that is in the process of exiting, but that
 		// should never happen, because Downloaders are not expected to exit, unless
 		// cancelled.
+		verifhook.Yield("dl.exit", instance)
 		r.mu.Lock()
 		delete(r.downloadersByInstance, instance)
 		r.mu.Unlock()
